@@ -49,7 +49,7 @@ class C03(Prop):
     rule = ("exhaustive: all profiles with <= 3 distinct orders over 3 alternatives and <= 2 over 4; random profiles "
             "m <= 7, n <= 6 against brute force; planted single-peaked profiles (random axis, outside-in votes) up to "
             "m = 30, n = 200 with shuffled storage and arbitrary ids, and one-swap perturbations; non-trivial = >= 2 "
-            "orders and >= 3 alternatives")
+            "orders and >= 3 alternatives; two or three voters on a long axis (9-30 alternatives) (ids: 1..m, 0-based, shifted, sparse, near 2^31 / 2^62 / 10^18, decimal spellings that collide when concatenated, multiples of m apart); 30 % of the cases carry multiplicities and 25 % are built in two stages on one object through the append_* entry points (vote_map / order_list / order / int64 and object order_array, part of a stored order's multiplicity held back) with a query in between")
     budget = {"quick": 800, "thorough": 20000}
     anchors = [("preflibtools.properties.subdomains.ordinal.singlepeaked.singlepeakedness", "is_single_peaked"),
                ("preflibtools.properties.subdomains.ordinal.singlepeaked.singlepeakedness", "is_single_peaked_axis"),
